@@ -9,6 +9,7 @@ def H(name, bounds="", reach=(), native=True, thorough_only=False, quick=None, t
 
 Q = {"budget": "150s", "timeout": 400}
 T = {"budget": "25m", "timeout": 3000}
+TC = {"budget": "40m", "timeout": 4000, "max-paths": 1500000}
 
 TSTATE_BOUNDS = "one checkOnce from a fresh T; property = any program of k<=3 (quick) / 4 (thorough) opcodes over {return, draw, Errorf, Fail, Fatalf, FailNow, panic(string), panic(error), nil dereference, Skip, Cleanup(sub), Context, Custom(sub)} with a 2-opcode sub-program for callbacks; buffer stream of 4 symbolic words"
 TSTATE_REACH = ["passed", "signalled", "skipped", "overrun"]
@@ -70,7 +71,7 @@ PROPS = {
     "C15": {
         "level": "model_checking",
         "harnesses": [
-            H("H_C15_shared", "18 generator families (integer, slice, Deferred, self-recursive Deferred, Custom, Filter, Map, SampledFrom, OneOf, Ptr, MapOf, Permutation, String over the package-level rune generator, RuneFrom on a shared range table, regexp character-class caches, AsAny, Float64Range, Deferred nested in a slice); one shared instance, 2 goroutines with their own T and bitstream, 2 operations each from {Draw, String, use as sub-generator of a locally built SliceOfN} (solver-chosen), compared with the same operations on private instances; <=1 (quick) / <=2 (thorough) preemptions", reach=["compared", "value"], quick=Q, thorough=T, race=True, nodiff=True),
+            H("H_C15_shared", "18 generator families (integer, slice, Deferred, self-recursive Deferred, Custom, Filter, Map, SampledFrom, OneOf, Ptr, MapOf, Permutation, String over the package-level rune generator, RuneFrom on a shared range table, regexp character-class caches, AsAny, Float64Range, Deferred nested in a slice); one shared instance, 2 goroutines with their own T and bitstream, 2 operations each from {Draw, String, use as sub-generator of a locally built SliceOfN} (solver-chosen), compared with the same operations on private instances; <=1 (quick) / <=2 (thorough) preemptions", reach=["compared", "value"], quick=Q, thorough=TC, race=True, nodiff=True),
             H("H_C15_three", "the same families, 3 goroutines with one operation each; <=1 preemption", reach=["compared", "value"], quick=Q, thorough=T, race=True, nodiff=True),
         ],
         "assumptions": ENGINE_ASSUME + CONC_ASSUME + ["bitstreams are two fixed 24-word buffers (the claim is about schedules and generator families, not about data)",
@@ -80,9 +81,10 @@ PROPS = {
     "C14": {
         "level": "model_checking",
         "harnesses": [
-            H("H_C14_pairs", "2 goroutines started by the property, one call each from {Helper+Name, Logf, Errorf, Fail, Failed, Context, Cleanup} (solver-chosen, unordered pair), logging off / through TB / through a raw logger, goroutines joined by the body or only inside a cleanup callback (overlapping failOnError, context cancellation and the cleanup loop); every interleaving of synchronisation operations with <=2 (quick) / <=3 (thorough) preemptions", reach=["joined", "overlapping-end", "signalled", "context"], quick=Q, thorough=T, race=True),
+            H("H_C14_pairs", "2 goroutines started by the property, one call each from {Helper+Name, Logf, Errorf, Fail, Failed, Context, Cleanup} (solver-chosen, unordered pair), logging off / through TB / through a raw logger, goroutines joined by the body or only inside a cleanup callback (overlapping failOnError, context cancellation and the cleanup loop); every interleaving of synchronisation operations with <=2 (quick) / <=3 (thorough) preemptions", reach=["joined", "overlapping-end", "signalled", "context"], quick=Q, thorough=TC, race=True),
             H("H_C14_withBody", "1 goroutine with 2 calls running concurrently with 1 call made by the property's own goroutine, same alphabet, logging off / through TB, joined or not; <=2 preemptions", reach=["joined", "overlapping-end", "signalled", "context"], quick=Q, thorough=T, race=True),
-            H("H_C14_sequences", "2 (quick) / 3 (thorough) goroutines with 2 calls each from {Errorf, Failed, Context, Cleanup}, joined; <=1 (quick) / <=2 (thorough) preemptions", reach=["joined", "signalled", "context"], quick=Q, thorough=T, race=True),
+            H("H_C14_sequences", "2 goroutines with 2 calls each from {Errorf, Failed, Context, Cleanup} (quick) / the full alphabet (thorough), joined; <=1 (quick) / <=2 (thorough) preemptions", reach=["joined", "signalled", "context"], quick=Q, thorough=TC, race=True),
+            H("H_C14_three", "3 goroutines with one call each from the full alphabet, joined or not; <=2 preemptions", reach=["joined", "overlapping-end", "signalled", "context"], thorough_only=True, thorough=TC, race=True),
         ],
         "assumptions": ENGINE_ASSUME + CONC_ASSUME,
     },
@@ -128,6 +130,7 @@ PROPS = {
         "level": "model_checking",
         "harnesses": [
             H("H_C06_rerun", "two-run history on the in-memory file system: real checkTB (checks=1, shrinktime 0, -rapid.nofailfile both ways, 3 (quick) / 11 (thorough) test names incl. unicode, separators, glob metacharacters, reserved names) with a data-dependent property on a symbolic PRNG word, then a second checkTB on the resulting file system", reach=["run1-failed", "run1-not-failed", "nofailfile"], native=False, quick=Q, thorough=T),
+            H("H_C06_roundtripLong", "real saveFailFile -> loadFailFile with a 600-word counterexample (about 11 KB of data lines, several refills of the scanner buffer), first/middle/last word and seed symbolic, short or 8 KB captured output", reach=["loaded"], quick=Q, thorough=T),
             H("H_C06_roundtrip", "real saveFailFile -> loadFailFile over the in-memory file system (real bufio.Scanner code executed); seed and <=2 bitstream words symbolic 64-bit; captured output = 0..2 (quick) / 0..3 (thorough) lines chosen by the solver from 10 representative lines (lengths 0,1,..,65533,65534,65535,70000; comment-like, data-like, version-like, blank, CR contents), with/without trailing newline", reach=["loaded"], quick=Q, thorough=T),
         ],
         "assumptions": ENGINE_ASSUME + ["package os replaced by an in-memory file system (POSIX rename atomicity, one directory tree, no concurrent writer)",
